@@ -21,7 +21,7 @@
      oracle : ((id1 id2 pid1 pid2 (children1) (children2) 0/1) ...) the answers of _eq_path_matches at its
               cache misses during the search of the real run, by cache key (modes 1, 3); pid = -1 for the root
      woracle: the same for the second walk of _maps_are_matched (mode 3; fresh cache, final label maps)
-   output: ( status keys1 keys2 asked c1 side1 c2 side2 )
+   output: ( status keys1 keys2 asked c1 side1 c2 side2 w1 w2 )
      status : 0 find() returned None, 1 two label maps, 2 out of fuel, 8 a universe was not built (see c1,
               c2), 10+c exception c (1 KeyError, 2 IndexError, 9 a question the replayed oracle has no
               answer to)
@@ -30,9 +30,13 @@
      c      : 9 universe given; 0 built, 5 built but lis is not the set of pruned rules the model computes,
               7 ValueError "Only atoms can be verified.", 10+c exception c (1 KeyError, 3 AssertionError,
               4 RuntimeError)
-     side   : the universe built (empty when given or not built), in the format of the input *)
+     side   : the universe built (empty when given or not built), in the format of the input
+     w      : 9 universe given; otherwise bit 0 = db_wfb db lis, bit 1 = only_atoms_verified_b db lis
+              (Parallel/InfoTotal.v): the decidable hypotheses of C13_construct_total (bit 0: c is not 11/13/14)
+              and C13_construct_ok (both bits: c is 0 or 5), evaluated on the replayed rule database; the harness
+              decides the same two facts on the real objects and the two verdicts are compared *)
 From Coq Require Import ZArith List Bool.
-From CSS Require Import Base.Sx Base.PyList Spec.Extractor Parallel.Model Parallel.InfoModel Parallel.Fuel.
+From CSS Require Import Base.Sx Base.PyList Spec.Extractor Parallel.Model Parallel.InfoModel Parallel.InfoTotal Parallel.Fuel.
 Import ListNotations.
 Open Scope Z_scope.
 
@@ -53,16 +57,20 @@ Definition dec_db (s : sx) : rdb :=
                        let a := sx_Z (sx_nth e 1) in if a <? 0 then None else Some a)) (sx_list (sx_nth s 2)))
        (map (fun e => (dec_rkey e, sx_Z (sx_nth e 2))) (sx_list (sx_nth s 3))).
 
-(* (c, the universe when there is one, its encoding for the output) *)
-Definition universe_arg (a : sx) : Z * option side * sx :=
-  if sx_Z (sx_nth a 0) =? 0 then (9, Some (dec_side (sx_nth a 1)), L [])
+Definition wf_code (db : rdb) (lis : list rkey) : Z :=
+  (if db_wfb db lis then 1 else 0) + (if only_atoms_verified_b db lis then 2 else 0).
+
+(* (c, the universe when there is one, its encoding for the output, w) *)
+Definition universe_arg (a : sx) : Z * option side * sx * Z :=
+  if sx_Z (sx_nth a 0) =? 0 then (9, Some (dec_side (sx_nth a 1)), L [], 9)
   else
     let db := dec_db (sx_nth a 1) in
     let lis := map dec_rkey (sx_list (sx_nth a 2)) in
+    let w := wf_code db lis in
     match construct db lis with
-    | COk s => (if lis_agrees db lis then 0 else 5, Some s, enc_side s)
-    | CRefused => (7, None, L [])
-    | CErr c => (10 + Z.of_nat c, None, L [])
+    | COk s => (if lis_agrees db lis then 0 else 5, Some s, enc_side s, w)
+    | CRefused => (7, None, L [], w)
+    | CErr c => (10 + Z.of_nat c, None, L [], w)
     end.
 
 Definition enc_keys (l : list (nat * clist)) : sx :=
@@ -96,9 +104,9 @@ Definition run_c13 (inp : sx) : sx :=
   if mode =? 9 then L [I 9]
   else
     let sent := sx_nat (sx_nth inp 1) in
-    let '(c1, u1, e1) := universe_arg (sx_nth inp 2) in
-    let '(c2, u2, e2) := universe_arg (sx_nth inp 3) in
-    let tail := [I c1; e1; I c2; e2] in
+    let '(c1, u1, e1, w1) := universe_arg (sx_nth inp 2) in
+    let '(c2, u2, e2, w2) := universe_arg (sx_nth inp 3) in
+    let tail := [I c1; e1; I c2; e2; I w1; I w2] in
     match u1, u2 with
     | Some s1, Some s2 =>
       let fuel := harness_fuel sent s1 s2 in
